@@ -177,3 +177,126 @@ func (a Snapshot) Equal(b Snapshot) bool {
 	}
 	return true
 }
+
+// warm calls every read-only method of x (reducers, accessors), so that any state the
+// library might memoise on a tensor is populated before the tensor is used further.
+func warm(x tensor.Tensor) {
+	_ = x.Sum() + x.Max() + x.Min() + x.Avg() + x.Var() + x.Std() + x.Mean()
+	_ = x.NElems()
+	s := x.Shape()
+	_, _ = x.Reshape([]int{x.NElems()})
+	_, _ = x.Slice(nil)
+	_, _ = x.UnSqueeze(0)
+	_, _ = x.Broadcast(s)
+	_, _ = x.Add(x)
+	_ = x.Scale(1)
+	if len(s) >= 1 {
+		_, _ = x.Flatten(0)
+		_, _ = x.SumAlong(len(s) - 1)
+		_, _ = x.Dot(x)
+	}
+	if len(s) >= 2 {
+		_, _ = x.Transpose()
+	}
+	idx := make([]int, len(s))
+	_, _ = x.At(idx...)
+}
+
+func junk(n int) []float64 {
+	v := make([]float64, n)
+	for i := range v {
+		v[i] = 1000.5 + float64(i)*3
+	}
+	return v
+}
+
+// NViaModes is the number of provenance modes of NewVia.
+const NViaModes = 7
+
+// NewVia builds a tensor of the given shape and values like New, but through a derivation
+// (provenance) chosen by via, so that the operand of a checked operation is not always a
+// fresh TensorOf result: state carried over from earlier calls or from the tensors it was
+// derived from (caches, shared storage) must not change what the operation computes.
+//   0 TensorOf directly            1 full-block Patch over a warmed tensor with other values
+//   2 warmed (all reducers called) 3 Slice of a warmed, larger tensor
+//   4 Reshape of a warmed flat one 5 Concat of two warmed halves
+//   6 Transpose of the warmed transposed data
+// Every derived tensor is turned into a fresh leaf with the requested tracking at the end.
+// Modes that do not apply to the shape fall back to mode 2.
+func NewVia(shape []int, v []float64, tracked bool, via int) (tensor.Tensor, error) {
+	if via <= 0 || via >= NViaModes {
+		return New(shape, v, tracked)
+	}
+	n := len(v)
+	rank := len(shape)
+	var x tensor.Tensor
+	var err error
+	switch {
+	case via == 1:
+		other, e := New(shape, junk(n), false)
+		if e != nil {
+			return nil, e
+		}
+		warm(other)
+		real, e := New(shape, v, false)
+		if e != nil {
+			return nil, e
+		}
+		x, err = other.Patch(nil, real)
+	case via == 3 && rank >= 1:
+		big := append([]int{shape[0] + 1}, shape[1:]...)
+		row := n / shape[0]
+		bt, e := New(big, append(append([]float64{}, v...), junk(row)...), false)
+		if e != nil {
+			return nil, e
+		}
+		warm(bt)
+		x, err = bt.Slice([]tensor.Range{{From: 0, To: shape[0]}})
+	case via == 4 && rank != 1:
+		flat, e := New([]int{n}, v, false)
+		if e != nil {
+			return nil, e
+		}
+		warm(flat)
+		x, err = flat.Reshape(append([]int{}, shape...))
+	case via == 5 && rank >= 1 && shape[0] >= 2:
+		k := shape[0] / 2
+		row := n / shape[0]
+		a, e := New(append([]int{k}, shape[1:]...), v[:k*row], false)
+		if e != nil {
+			return nil, e
+		}
+		b, e := New(append([]int{shape[0] - k}, shape[1:]...), v[k*row:], false)
+		if e != nil {
+			return nil, e
+		}
+		warm(a)
+		warm(b)
+		x, err = tensor.Concat([]tensor.Tensor{a, b}, 0)
+	case via == 6 && rank >= 2:
+		ts := append([]int{}, shape...)
+		ts[rank-1], ts[rank-2] = ts[rank-2], ts[rank-1]
+		tv := make([]float64, n)
+		for i := range tv {
+			idx := ref.Unravel(i, ts)
+			idx[rank-1], idx[rank-2] = idx[rank-2], idx[rank-1]
+			tv[i] = v[ref.Ravel(idx, shape)]
+		}
+		tt, e := New(ts, tv, false)
+		if e != nil {
+			return nil, e
+		}
+		warm(tt)
+		x, err = tt.Transpose()
+	default:
+		x, err = New(shape, v, false)
+		if err == nil {
+			warm(x)
+		}
+	}
+	if err != nil {
+		return nil, err
+	}
+	x.ResetGradContext(tracked)
+	return x, nil
+}
